@@ -414,7 +414,60 @@ fn nat_op(wide: bool, op: &str, a: u64, b: u64) -> Option<String> {
     }
 }
 
+/// C07, hardware side: every f32 pattern `lo, lo+stride, ..` below `hi` through the unary paths and a few fixed partners,
+/// the crate's FP32 result against the host's native operation (NaN payloads aside).
+fn f32_sweep(lo: u64, hi: u64, stride: u64) -> String {
+    let eq = |a: u32, b: u32| a == b || (f32::from_bits(a).is_nan() && f32::from_bits(b).is_nan());
+    let partners: [f32; 6] = [1.0, 3.0, -0.1, 1.0e-38, 16777216.0, 3.4e38];
+    let mut n: u64 = 0;
+    let mut b = lo;
+    while b < hi {
+        let bits = b as u32;
+        let x = f32::from_bits(bits);
+        let fx = Float::from_f32(x);
+        let bad = |op: &str, got: u32, want: u32| format!("MISMATCH {} bits={:#010x} got={:#010x} want={:#010x}", op, bits, got, want);
+        let st = fx.as_f32().to_bits();
+        if !eq(st, bits) {
+            return bad("load-store", st, bits);
+        }
+        let w = Float::from_f64(x as f64).as_f32().to_bits();
+        if !eq(w, bits) {
+            return bad("f64-to-f32", w, bits);
+        }
+        let t = fx.trunc().as_f32().to_bits();
+        if !eq(t, x.trunc().to_bits()) {
+            return bad("trunc", t, x.trunc().to_bits());
+        }
+        let r = fx.round().as_f32().to_bits();
+        if !eq(r, x.round().to_bits()) {
+            return bad("round", r, x.round().to_bits());
+        }
+        let q = partners[(b % 6) as usize];
+        let fq = Float::from_f32(q);
+        let checks: [(&str, u32, u32); 4] = [
+            ("add", (&fx + &fq).as_f32().to_bits(), (x + q).to_bits()),
+            ("sub", (&fq - &fx).as_f32().to_bits(), (q - x).to_bits()),
+            ("mul", (&fx * &fq).as_f32().to_bits(), (x * q).to_bits()),
+            ("div", (&fx / &fq).as_f32().to_bits(), (x / q).to_bits()),
+        ];
+        for (op, got, want) in checks.iter() {
+            if !eq(*got, *want) {
+                return format!("MISMATCH {} bits={:#010x} partner={:e} got={:#010x} want={:#010x}", op, bits, q, got, want);
+            }
+        }
+        if (fx < fq) != (x < q) || (fx == fq) != (x == q) || (fx >= fq) != (x >= q) {
+            return format!("MISMATCH cmp bits={:#010x} partner={:e}", bits, q);
+        }
+        n += 1;
+        b += stride;
+    }
+    format!("ok {}", n)
+}
+
 fn handle(t: &[&str]) -> Option<String> {
+    if t.len() == 4 && t[0] == "f32sweep" {
+        return Some(f32_sweep(t[1].parse().ok()?, t[2].parse().ok()?, t[3].parse().ok()?));
+    }
     if t.len() == 4 && (t[0] == "nat64" || t[0] == "nat32") {
         return nat_op(t[0] == "nat64", t[1], t[2].parse().ok()?, t[3].parse().ok()?);
     }
